@@ -180,6 +180,25 @@ def merge_routine(ctx, rule='C12-R2'):
               '(e.g. None, as in MSA: null) are silently skipped, so the per-call / YAML routes no longer agree with '
               'editing the global dictionary', facts={'coverage': T.show(cover, maxlen=400)},
               instance='adjust_nested_dict: every value of a known key is stored')
+    # what happens to a known key does not depend on what the key is called: whether an entry is descended into or taken
+    # over whole is decided by the kind of value alone (a carve-out such as "keys ending in _kwargs are replaced, not
+    # merged" drops the siblings of a partially overridden sub-dictionary)
+    keyvars = {l[2] for e in stores for l in guard_literals(e.guard) if known_key_literal(l)}
+    rec_calls = [e for e in evs if e.kind == 'call' and call_head(e) == adj and e.ctx == ()]
+    for e in list(stores) + rec_calls:
+        for l in guard_literals(e.guard):
+            inner = l[1] if tag(l) == 'not' else l
+            if known_key_literal(inner):
+                continue
+            # (the key used to look the value up - new_dict[key] - is a use of the value, not of the name)
+            stripped = T.subst(l, {x: ('value',) for x in T.walk(l)
+                                   if tag(x) in ('sub', 'col') and len(x) > 2 and x[2] in keyvars})
+            if any(T.contains(stripped, lambda x, kv=kv: x == kv) for kv in keyvars):
+                ctx.violation(rule, adj, e.node, e.loc(),
+                              f'the merge treats an entry differently depending on the name of its key ({T.show(l, maxlen=120)}): '
+                              'every known key is either descended into (dictionary values) or taken over (anything else)',
+                              instance='adjust_nested_dict: merge semantics independent of the key name')
+                break
     warns = [e for e in evs if e.kind == 'call' and call_head(e) == 'warnings.warn']
     good = False
     for e in warns:
@@ -442,3 +461,19 @@ def same_loader(ctx, rule='C12-R8'):
               f'set_prms reads the user file with {sorted(a)}, the packaged defaults are read with {sorted(b)}: the two '
               'loaders do not resolve every scalar alike (1e3, 010, yes / no), so the same text gives other effective values '
               'through the file route than through the defaults', instance='set_prms and get_default_prms use the same YAML loader')
+
+
+def stateless_routes(ctx, rule='C12-R9'):
+    """The routines behind the three routes (set_prms, reset_prms, _setup_prms, the merge routine and what they call) keep
+    nothing between calls besides the global dictionary itself: a registry of "already reported" keys or a memoised
+    merge makes the second use of a route behave differently from the first (a warning given once, a stale result)."""
+    from sa.rules.confinement import module_state
+    fx = effects(ctx)
+    entries = ['ampycloud.core.set_prms', 'ampycloud.core.reset_prms', 'ampycloud.data.AbstractChunk._setup_prms',
+               'ampycloud.utils.utils.adjust_nested_dict', 'ampycloud.dynamic.get_default_prms']
+    for q in entries:
+        ctx.project.func(q, rule)
+    scope = fx.reachable([q for q in entries if q in fx.summ])
+    ctx.floor(rule, 'parameter routines and what they call', len(scope), 5)
+    # (who may write the global dictionary itself is C11-R2's business: these routines are its writers)
+    module_state(ctx, rule, scope=scope, ignore=(PRMS_GLOBAL,))
